@@ -380,8 +380,17 @@ class Extractor:
         if rets and (not stray or len(rets) >= 2 or any(cj.prov == "branch" for r in rets for cj in r.pc)):
             # the class may be chosen first (`message_class = X` in an if/elif chain) and decoded once: expand the conditional
             pairs: List[Tuple[frozenset, Term]] = []
+            table_guarded: List[Any] = []
             for r in rets:
                 base = frozenset(x for cj in r.pc if cj.prov in ("branch", "ret-surv", "raise-surv") for x in conjuncts(cj.term))
+                recv0 = r.term[1][1]
+                if recv0[0] == "s" and recv0[1][0] == "dict" and recv0[1][1] and all(isinstance(kv, tuple) and len(kv) == 2 and kv[0][0] == "c" for kv in recv0[1][1]) \
+                        and ("cmp", "in", recv0[2], recv0[1]) in base:
+                    # TABLE[tag].stream_deserialize(f) under `tag in TABLE`: one row per entry of the table
+                    for k_, v_ in recv0[1][1]:
+                        pairs.append((frozenset({("cmp", "==", k_, recv0[2])}), ("call", ("a", v_, "stream_deserialize"), r.term[2], r.term[3])))
+                    table_guarded.append(r)
+                    continue
                 tab = decision_table(r.term)
                 if tab is None:
                     c.problems.append("%s: dispatch too branchy" % fi.qualname)
@@ -418,7 +427,7 @@ class Extractor:
                     # unknown tags raise: a raise that is not guarded by a positive tag test
                     fall = [e for e in s.raises() if not any(x[0] == "cmp" and x[1] == "==" and tagread in (x[2], x[3])
                                                              for cj in e.pc for x in conjuncts(cj.term))]
-                    uncond = [r for r in rets if not any(x[0] == "cmp" and x[1] == "==" and tagread in (x[2], x[3])
+                    uncond = [r for r in rets if r not in table_guarded and not any(x[0] == "cmp" and x[1] == "==" and tagread in (x[2], x[3])
                                                          for cj in r.pc for x in conjuncts(cj.term))
                               and not any(cn and any(y[0] == "cmp" and y[1] == "==" for y in cn) for cn, _ in (decision_table(r.term) or []))]
                     d.fallthrough_raises = bool(fall) and not uncond and not stray
